@@ -13,6 +13,16 @@ PROVENANCE = {
     "local-function": "function defineComponent(a: any, b?: any) { return a; }\n",
     "global": "",
     "vue-named+shadow": "import { defineComponent } from 'vue';\n",
+    # Vue's defineComponent imported under ANOTHER local name, next to a different module-level binding that is spelled defineComponent
+    "vue-aliased+other-module": "import { defineComponent as vueDefineComponent } from 'vue';\nimport { defineComponent } from './my-components';\n",
+    "vue-aliased+local-fn": "import { defineComponent as _dc } from 'vue';\nexport function defineComponent(setup: any, options?: any) { return _dc(setup, { inheritAttrs: false, ...options }); }\n",
+    "vue-aliased+default-import": "import defineComponent from './define';\nimport { h, defineComponent as DC } from 'vue';\n",
+    "vue-aliased+local-class": "import { defineComponent as mk } from 'vue';\nconst defineComponent = (s: any, o?: any) => mk(s, o);\n",
+    "other-module+vue-aliased-later": "import { defineComponent } from './my-components';\nimport { ref, defineComponent as vdc } from 'vue';\n",
+    # the same export under spellings of the specifier that keep the local name
+    "vue-self-alias": "import { defineComponent as defineComponent } from 'vue';\n",
+    "vue-string-name": "import { \"defineComponent\" as defineComponent } from 'vue';\n",
+    "vue-other-export-as": "import { h as defineComponent } from 'vue';\n",
 }
 SETUPS = {
     "typed": "(props: { a: string, b?: number }) => {}",
@@ -136,8 +146,12 @@ class TypeGen:
             if props and all(not p.optional for p in props):
                 choices += [("Required", 3)]
             choices += [("Pick", 2), ("Omit", 2), ("indexed", 2), ("exported", 1), ("scoped", 1)]
+            if len(props) >= 2:
+                choices += [("reuse", 3)]
         k = r.wpick(choices)
         self.used["enc:" + k] += 1
+        if k == "reuse":
+            return self.encode_reuse(props, depth, allow_after)
         if k == "literal":
             return self.literal(props)
         if k == "paren":
@@ -205,6 +219,110 @@ class TypeGen:
             self.place("type %s = %s;" % (n, self.literal(props)), allow_after)
             return n
         return self.literal(props)
+
+
+def _keys_union(names):
+    return " | ".join("'%s'" % x for x in names) if names else "never"
+
+
+def _encode_reuse(self, props, depth, allow_after):
+    """ONE declaration (an interface with `extends`, an extends chain, sibling interfaces sharing a base, a merged interface, an alias)
+    reached SEVERAL times in one annotation, each time through a different view (Pick / Omit, optionally under Partial / Required /
+    parentheses / an alias); the views partition the wanted prop map"""
+    r = self.r
+    extra_names = [n for n in NAMES if n not in [p.name for p in props]][:r.below(3)]
+    # split the wanted map into 2 or 3 parts
+    nparts = 2 if len(props) < 3 or r.chance(0.6) else 3
+    cuts = sorted(set([1 + r.below(len(props) - 1) for _ in range(nparts - 1)]))
+    parts = [props[a:b] for a, b in zip([0] + cuts, cuts + [len(props)])]
+    wrappers, dprops = [], []
+    for part in parts:
+        w = "none"
+        if all(p.optional and p.kind != "getter" for p in part) and r.chance(0.6):
+            w = "Partial"
+        elif all(not p.optional for p in part) and r.chance(0.6):
+            w = "Required"
+        wrappers.append(w)
+        for p in part:
+            q = Prop(p.name, p.kind, p.optional if w == "none" else (r.chance(0.5) and p.kind != "getter"), p.ty)
+            q.quoted = getattr(p, "quoted", False)
+            dprops.append(q)
+    dprops += [Prop(n, "prop", r.chance(0.5), "number") for n in extra_names]
+    if r.chance(0.5):
+        dprops = dprops[::-1]
+    sig = lambda ps: "; ".join(p.sig() for p in ps)
+    form = r.wpick([("iface-extends", 4), ("extends-chain", 2), ("siblings", 3), ("interface", 1), ("alias-literal", 1), ("merged", 1), ("alias-of-extends", 1),
+                    ("extends-two", 1)])
+    self.used["reuse:" + form] += 1
+    cut = r.below(len(dprops) + 1) if len(dprops) > 1 else 0
+    names = []
+    if form in ("iface-extends", "alias-of-extends"):
+        n, b = self.fresh("RE"), self.fresh("RB")
+        self.place("interface %s { %s }" % (b, sig(dprops[cut:])), allow_after)
+        self.place("interface %s extends %s { %s }" % (n, b, sig(dprops[:cut])), allow_after)
+        if form == "alias-of-extends":
+            a = self.fresh("RA")
+            self.place("type %s = %s;" % (a, n), allow_after)
+            n = a
+        names = [n]
+    elif form == "extends-chain":
+        n, m, b = self.fresh("RE"), self.fresh("RM"), self.fresh("RB")
+        c2 = r.below(cut + 1)
+        self.place("interface %s { %s }" % (b, sig(dprops[cut:])), allow_after)
+        self.place("interface %s extends %s { %s }" % (m, b, sig(dprops[c2:cut])), allow_after)
+        self.place("interface %s extends %s { %s }" % (n, m, sig(dprops[:c2])), allow_after)
+        names = [n] if r.chance(0.5) else [n, n, m] if not dprops[:c2] else [n]
+    elif form == "siblings":
+        l, rr, b = self.fresh("RL"), self.fresh("RR"), self.fresh("RB")
+        self.place("interface %s { %s }" % (b, sig(dprops[cut:])), allow_after)
+        self.place("interface %s extends %s { %s }" % (l, b, sig(dprops[:cut])), allow_after)
+        self.place("interface %s extends %s { %s }" % (rr, b, sig(dprops[:cut])), allow_after)
+        names = [l, rr]
+    elif form == "extends-two":
+        n, b1, b2 = self.fresh("RE"), self.fresh("RB"), self.fresh("RC")
+        c2 = r.below(cut + 1)
+        self.place("interface %s { %s }" % (b1, sig(dprops[cut:])), allow_after)
+        self.place("interface %s { %s }" % (b2, sig(dprops[c2:cut])), allow_after)
+        self.place("interface %s extends %s, %s { %s }" % (n, b1, b2, sig(dprops[:c2])), allow_after)
+        names = [n]
+    elif form == "interface":
+        n = self.fresh("RI")
+        self.place("interface %s { %s }" % (n, sig(dprops)), allow_after)
+        names = [n]
+    elif form == "merged":
+        n = self.fresh("RM")
+        self.place("interface %s { %s }" % (n, sig(dprops[:cut])), allow_after)
+        self.place("interface %s { %s }" % (n, sig(dprops[cut:])), allow_after)
+        names = [n]
+    else:
+        n = self.fresh("RA")
+        self.place("type %s = { %s };" % (n, sig(dprops)), allow_after)
+        names = [n]
+    views = []
+    alln = [p.name for p in dprops]
+    for i, (part, w) in enumerate(zip(parts, wrappers)):
+        nm = names[i % len(names)]
+        keys = [p.name for p in part]
+        if r.chance(0.5):
+            v = "Pick<%s, %s>" % (nm, _keys_union(keys))
+        else:
+            v = "Omit<%s, %s>" % (nm, _keys_union([x for x in alln if x not in keys]))
+        if w != "none":
+            v = "%s<%s>" % (w, v)
+        k2 = r.below(6)
+        if k2 == 0:
+            v = "(%s)" % v
+        elif k2 == 1:
+            a = self.fresh("RV")
+            self.place("type %s = %s;" % (a, v), allow_after)
+            v = a
+        views.append(v)
+    if r.chance(0.5):
+        views = views[::-1]
+    return " & ".join(views)
+
+
+TypeGen.encode_reuse = _encode_reuse
 
 
 def wrap_module(tg, call_stmt, imports="import { defineComponent } from 'vue';\nimport type { SetupContext } from 'vue';\n", scope=None):
@@ -314,7 +432,7 @@ DEFAULT_VALUES = ["'hi'", "1", "true", "null", "x", "[1, 2]", "{ a: 1 }", "() =>
 EVENTS = ["foo", "bar", "update:modelValue", "my-event", "x", "change"]
 
 
-def c16_case(r, i):
+def c16_body(r, i):
     tg = TypeGen(r)
     props = tg.random_map()
     ty = tg.encode(props)
@@ -336,7 +454,12 @@ def c16_case(r, i):
         ty2 = ty if r.chance(0.4) else tg.encode(tg.random_map(), allow_after=False)
         form = r.wpick([("(props: %s) => {}", 4), ("(props: %s, ctx: SetupContext<{ (e: 'a'): void }>) => {}", 2), ("function (props: %s) {}", 1)])
         call += "\nconst C%d_%d = defineComponent(%s);" % (i, j, form % ty2)
-    return wrap_module(tg, call, scope=scope), tg.used
+    return tg, call, {"scope": scope}
+
+
+def c16_case(r, i):
+    tg, call, kw = c16_body(r, i)
+    return wrap_module(tg, call, **kw), tg.used
 
 
 UNRESOLVABLE = ["import type { Ext } from './ext';\nconst C = defineComponent((props: Ext) => {});",
@@ -353,7 +476,7 @@ UNRESOLVABLE = ["import type { Ext } from './ext';\nconst C = defineComponent((p
                 "interface I extends Ext2 { a: string }\nimport type { Ext2 } from './e';\nconst C = defineComponent((props: I) => {});"]
 
 
-def c17_case(r, i):
+def c17_body(r, i):
     tg = TypeGen(r)
     eg = ExprGen(r, tg)
     n = 1 + r.below(4)
@@ -365,10 +488,15 @@ def c17_case(r, i):
         tg.used["multi-call"] += 1
         ms = ["q%d%s: %s" % (k, "?" if r.chance(0.3) else "", r.pick(members).split(": ", 1)[1] if r.chance(0.5) else eg.expr()) for k in range(1 + r.below(3))]
         call += "\nconst C%d_%d = defineComponent((props: { %s }) => {});" % (i, j, "; ".join(ms))
-    return wrap_module(tg, call, imports="import { defineComponent } from 'vue';\nclass Foo {}\n"), tg.used
+    return tg, call, {"imports": "import { defineComponent } from 'vue';\nclass Foo {}\n"}
 
 
-def c18_case(r, i):
+def c17_case(r, i):
+    tg, call, kw = c17_body(r, i)
+    return wrap_module(tg, call, **kw), tg.used
+
+
+def c18_body(r, i):
     tg = TypeGen(r)
     props = tg.random_map(2 + r.below(3))
     for p in props:
@@ -427,10 +555,15 @@ def c18_case(r, i):
         tg.used["multi-call"] += 1
         d2 = r.pick([d, "{ " + ", ".join(entries[: 1 + r.below(max(1, len(entries)))]) + " }", "{}", "dflt"])
         call += "\nconst C%d_%d = defineComponent((props: %s = %s) => {});" % (i, j, ty, d2)
-    return wrap_module(tg, call), tg.used
+    return tg, call, {}
 
 
-def c19_case(r, i):
+def c18_case(r, i):
+    tg, call, kw = c18_body(r, i)
+    return wrap_module(tg, call, **kw), tg.used
+
+
+def c19_body(r, i):
     tg = TypeGen(r)
     n = 1 + r.below(3)
     evs = []
@@ -471,7 +604,8 @@ def c19_case(r, i):
             tg.place("type %s = %s;" % (nme, lit))
             return "(e: %s) => void" % nme
         if k == "intersection" and len(names) >= 2:
-            return "%s & %s" % (enc(names[:1], d + 1), enc(names[1:], d + 1))
+            par = lambda t: "(%s)" % t if "=>" in t and not t.startswith("{") else t
+            return "%s & %s" % (par(enc(names[:1], d + 1)), par(enc(names[1:], d + 1)))
         return "{ " + "; ".join("(e: '%s'): void" % x for x in names) + " }"
 
     ty = enc(evs)
@@ -497,4 +631,144 @@ def c19_case(r, i):
         call += "\nconst C%d_%d = defineComponent((%s, ctx: SetupContext<%s>) => {});" % (i, j, first, ty2)
     scope = r.wpick(SCOPES)
     tg.used["scope:%s" % scope] += 1
-    return wrap_module(tg, call, scope=scope), tg.used
+    return tg, call, {"scope": scope}
+
+
+def c19_case(r, i):
+    tg, call, kw = c19_body(r, i)
+    return wrap_module(tg, call, **kw), tg.used
+
+
+# ------------------------------------------------------------------------------------------------ several scopes, SAME declaration names
+MULTI_FORMS = ["siblings", "shadow", "nested", "shadow-after", "block-in-fn", "three"]
+
+
+def scope_text(tg, call):
+    strip = lambda t: t.replace("export type", "type").replace("export interface", "interface")
+    return strip("\n".join(tg.decls_before)) + "\n" + call + "\n" + strip("\n".join(tg.decls_after)) + "\n"
+
+
+def multi_scope_case(r, i, bodyfn):
+    """two or three independently generated bodies (declarations + defineComponent calls) in DIFFERENT scopes of one module; every body numbers its
+    declarations from 1, so the same alias / interface names (A1, I2, EL1, ...) are declared in several scopes with different meanings:
+    sibling functions, a function-local declaration shadowing a module-level one (declared before or after), nested functions, blocks"""
+    form = r.pick(MULTI_FORMS)
+    n = 3 if form == "three" else 2
+    used = collections.Counter()
+    bodies, imports = [], None
+    for j in range(n):
+        tg, call, kw = bodyfn(r, i * 10 + j)
+        used.update(tg.used)
+        imports = kw.get("imports") or imports
+        bodies.append(scope_text(tg, call))
+    used["multi-scope:" + form] += 1
+    wraps = ["function scopeA() {\n%s}\n", "const scopeB = () => {\n%s};\n", "{\n%s}\n", "export function makeC() {\n%s}\n", "class HostD { m() {\n%s} }\n",
+             "describe('e', function () {\n%s});\n"]
+    w = lambda k: wraps[(i + k) % len(wraps)]
+    if form == "siblings":
+        body = w(0) % bodies[0] + w(1) % bodies[1]
+    elif form == "shadow":
+        body = bodies[0] + w(0) % bodies[1]
+    elif form == "shadow-after":
+        body = w(0) % bodies[1] + bodies[0]
+    elif form == "nested":
+        body = "function outerN() {\n%s%s}\n" % (bodies[0], w(1).replace("export ", "") % bodies[1])
+    elif form == "block-in-fn":
+        body = "function outerB() {\n{\n%s}\n%s}\n" % (bodies[0], bodies[1])
+    else:
+        body = w(0) % bodies[0] + bodies[1] + w(2) % bodies[2]
+    imports = imports or "import { defineComponent } from 'vue';\nimport type { SetupContext } from 'vue';\n"
+    return imports + "const userProps = {}, dflt = {}, k = 'foo', fn1 = () => 1;\n" + body, used
+
+
+# deterministic part: ONE name declared in two scopes, as every pair of declaration kinds, in every arrangement of the scopes
+def _lit(evs):
+    return " | ".join("'%s'" % e for e in evs)
+
+
+def _sigs(evs):
+    return "; ".join("(e: '%s'): void" % e for e in evs)
+
+
+C19_NAME_KINDS = [
+    ("lit-alias/fn", lambda n, e: "type %s = %s;" % (n, _lit(e)), lambda n: "(e: %s) => void" % n),
+    ("lit-alias/callsig", lambda n, e: "type %s = %s;" % (n, _lit(e)), lambda n: "{ (e: %s, v: number): void }" % n),
+    ("lit-alias/nested", lambda n, e: "type %s = %s;\ntype %sMore = %s | %s;" % (n, _lit(e[1:]), n, n, _lit(e[:1])), lambda n: "(e: %sMore) => void" % n),
+    ("lit-alias/iface", lambda n, e: "type %s = %s;\ninterface %sEmits { (e: %s): void }" % (n, _lit(e), n, n), lambda n: "%sEmits" % n),
+    ("fn-alias", lambda n, e: "type %s = (e: %s) => void;" % (n, _lit(e)), lambda n: n),
+    ("iface", lambda n, e: "interface %s { %s }" % (n, _sigs(e)), lambda n: n),
+    ("iface-extends", lambda n, e: "interface %sBase { %s }\ninterface %s extends %sBase { %s }" % (n, _sigs(e[:1]), n, n, _sigs(e[1:])), lambda n: n),
+    ("props-syntax", lambda n, e: "type %s = { %s };" % (n, "; ".join("'%s': [v: number]" % x for x in e)), lambda n: n),
+]
+C19_PAYLOADS = [["open", "close"], ["submit", "update:modelValue", "field-change"]]
+
+C16_NAME_KINDS = [
+    ("alias", lambda n, m: "type %s = { %s };" % (n, m), lambda n: n),
+    ("interface", lambda n, m: "interface %s { %s }" % (n, m), lambda n: n),
+    ("iface-extends", lambda n, m: "interface %sBase { %s }\ninterface %s extends %sBase { %s }" % (n, m.split("; ", 1)[0], n, n, m.split("; ", 1)[1]), lambda n: n),
+    ("key-alias/pick", lambda n, m: "type %s = %s;" % (n, _lit([x.split(":")[0].strip("?' ") for x in m.split("; ")])), lambda n: "Pick<{ %s; zz: Date }, %s>" % ("@", n)),
+    ("key-alias/omit", lambda n, m: "type %s = 'zz';\ntype %sAll = { %s; zz: Date };" % (n, n, m), lambda n: "Omit<%sAll, %s>" % (n, n)),
+    ("holder/indexed", lambda n, m: "type %s = { k: { %s }; other: string };" % (n, m), lambda n: "%s['k']" % n),
+    ("partial", lambda n, m: "interface %s { %s }" % (n, m), lambda n: "Partial<%s>" % n),
+]
+C16_PAYLOADS = ["id: string; label?: string; 'data-kind': number", "size: number; onPick?(): void; id?: boolean; 'a-b': string"]
+
+
+def same_name_products(kinds, payloads, prop_side):
+    """(id, module) for every ordered pair of declaration kinds x arrangement of two scopes; the SAME name is declared in both scopes"""
+    out = []
+    wraps = ["function scopeA() {\n%s}\n", "const scopeB = () => {\n%s};\n", "{\n%s}\n", "export function makeC() {\n%s}\n"]
+    for (k1, d1, u1), (k2, d2, u2) in itertools.product(kinds, repeat=2):
+        for fi, form in enumerate(["siblings", "shadow", "shadow-after", "nested", "decl-after-use", "three-uses"]):
+            name = "Name"
+            def body(decl, use, payload, tag, after=False):
+                ty = use(name).replace("@", payload if isinstance(payload, str) else "")
+                call = ("const %s = defineComponent((props: %s) => {});" % (tag, ty)) if prop_side else \
+                       ("const %s = defineComponent((_, ctx: SetupContext<%s>) => {});" % (tag, ty))
+                dd = decl(name, payload)
+                return (call + "\n" + dd + "\n") if after else (dd + "\n" + call + "\n")
+            b1 = body(d1, u1, payloads[0], "C1")
+            b2 = body(d2, u2, payloads[1], "C2", after=(form == "decl-after-use"))
+            w1, w2 = wraps[fi % len(wraps)], wraps[(fi + 1) % len(wraps)]
+            if form in ("siblings", "decl-after-use"):
+                m = w1 % b1 + w2 % b2
+            elif form == "shadow":
+                m = b1 + w1 % b2
+            elif form == "shadow-after":
+                m = w1 % b2 + b1
+            elif form == "nested":
+                m = "function outerN() {\n%s%s}\n" % (b1, w2 % b2)
+            else:
+                m = w1 % b1 + w2 % b2 + w1.replace("scopeA", "scopeA2").replace("scopeB", "scopeB2").replace("makeC", "makeC2") % b1.replace("C1", "C3")
+            out.append(("sn:%s|%s|%s" % (k1, k2, form), "import { defineComponent } from 'vue';\nimport type { SetupContext } from 'vue';\n" + m))
+    return out
+
+
+# C18, deterministic part: SEVERAL calls annotated with ONE named props type, every ordered sequence of default kinds
+C18_TYPE_DECLS = [("interface", "interface Props { size?: number; label?: string; onPick?: (id: number) => void; 'a-b'?: boolean }"),
+                  ("alias", "type Props = { size?: number; label?: string; onPick?: (id: number) => void; 'a-b'?: boolean };"),
+                  ("extends", "interface PBase { size?: number; 'a-b'?: boolean }\ninterface Props extends PBase { label?: string; onPick?: (id: number) => void }"),
+                  ("exported-after", "@AFTER@export interface Props { size?: number; label?: string; onPick?: (id: number) => void; 'a-b'?: boolean }")]
+C18_DEFAULT_KINDS = [("static", " = { size: 1, label: 'fancy', onPick: noop }"), ("none", ""), ("ident", " = fallback"), ("spread", " = { size: 2, ...fallback }"),
+                     ("computed", " = { [k]: 3, label: 'c' }"), ("empty", " = {}"), ("static2", " = { 'a-b': true, label, get size() { return n } }"), ("call", " = makeDefaults()")]
+
+
+def c18_products(tier):
+    out = []
+    seqs = list(itertools.product(range(len(C18_DEFAULT_KINDS)), repeat=2)) + \
+        [t for i, t in enumerate(itertools.product(range(len(C18_DEFAULT_KINDS)), repeat=3)) if i % (5 if tier == "quick" else 1) == 0]
+    pre = "import { defineComponent } from 'vue';\nconst fallback = {}, k = 'size', noop = () => {}, label = 'l', n = 1, makeDefaults = () => ({});\n"
+    for si, seq in enumerate(seqs):
+        for ti, (tn, decl) in enumerate(C18_TYPE_DECLS):
+            if tier == "quick" and (si + ti) % 2 and len(seq) == 3:
+                continue
+            forms = ["(props: Props%s) => () => null", "function (props: Props%s) {}", "(props: Props%s, ctx) => {}"]
+            calls = "\n".join("export const K%d = defineComponent(%s);" % (j, forms[(si + j) % 3] % C18_DEFAULT_KINDS[kx][1]) for j, kx in enumerate(seq))
+            if "@AFTER@" in decl:
+                body = calls + "\n" + decl.replace("@AFTER@", "")
+            else:
+                body = decl + "\n" + calls
+            if (si + ti) % 4 == 3:
+                body = "function scope() {\n" + body.replace("export ", "") + "\n}"
+            out.append(("dk:%s|%s" % (tn, "-".join(C18_DEFAULT_KINDS[kx][0] for kx in seq)), pre + body + "\n"))
+    return out
